@@ -45,4 +45,23 @@ def bounded(check):
                        replay_cmd="/venv/bin/python %s %s %d" % (os.path.join(here, "bounded", "serde_roundtrip.py"), check.repo.root, n)),
                   open(path, "w"), indent=1)
         out["replay"] = path
-    return [out]
+    outs = [out]
+    p2 = subprocess.run(["/venv/bin/python", os.path.join(here, "bounded", "factories_destinations.py"), check.repo.root],
+                        stdout=subprocess.PIPE, stderr=subprocess.PIPE, universal_newlines=True, timeout=3000)
+    line2 = (p2.stdout.strip().splitlines() or ["{}"])[-1]
+    try:
+        info2 = json.loads(line2)
+    except ValueError:
+        info2 = {"error": (p2.stderr or p2.stdout)[-400:]}
+    out2 = dict(name="every factory x save-as form: persisted elements are loaded back with their own lines, in order, beneath the output directory", level="bounded",
+                bound="7 factories (simple_file, first_file, glob_file, foreach_collect, simple_command, command_with_args, foreach_execute) x 7 forms of "
+                      "save_as (none, name, directory, leading '/', absolute inside / outside the work area), real HostContext, real dehydrate / hydrate",
+                result=info2, violation=(p2.returncode == 1), error=(p2.returncode not in (0, 1)))
+    if p2.returncode == 1:
+        os.makedirs(os.path.join(here, "replays"), exist_ok=True)
+        path2 = os.path.join(here, "replays", "C11-bounded-factories.json")
+        json.dump(dict(obligation="bounded:factories-destinations", witness=info2,
+                       replay_cmd="/venv/bin/python %s %s" % (os.path.join(here, "bounded", "factories_destinations.py"), check.repo.root)), open(path2, "w"), indent=1)
+        out2["replay"] = path2
+    outs.append(out2)
+    return outs
